@@ -765,6 +765,33 @@ func checkFile(b []byte, eol string, encrypted bool) *checked {
 		}
 	}
 
+	// older revisions of an incrementally updated file: every in-use entry of every section still finds
+	// exactly its "<nr> <gen> obj" header (superseded objects stay in the file)
+	for ri := 1; ri < len(revs); ri++ {
+		for _, e := range revs[ri].sec.ents {
+			if e.typ != 1 {
+				continue
+			}
+			nr, gen, _, ok := objHeaderAt(b, e.a, eol)
+			if ok && nr == e.nr && gen == e.b {
+				continue
+			}
+			got := ""
+			if e.a >= 0 && e.a < len(b) {
+				end := e.a + 24
+				if end > len(b) {
+					end = len(b)
+				}
+				got = string(b[e.a:end])
+			}
+			if ok && nr == e.nr {
+				fail("inuse-generation", "revision -%d: entry obj %d has generation %d but the object header at offset %d says %q", ri, e.nr, e.b, e.a, got)
+			} else {
+				fail("inuse-offset", "revision -%d: entry obj %d gen %d says offset %d, found %q there", ri, e.nr, e.b, e.a, got)
+			}
+		}
+	}
+
 	// compressed entries: stated index of a valid object stream
 	type ostm struct {
 		nrs []int
